@@ -36,6 +36,10 @@ def rand_vec(rng, n, style):
         xs = [rng.gauss(0, 1) for _ in range(2 * dim)]
         nrm = math.sqrt(sum(x * x for x in xs))
         return [float2bits(x / nrm) for x in xs]
+    if style == "tiny":             # every amplitude around 1e-9 (squared magnitudes far below f64::EPSILON)
+        return [float2bits(rng.uniform(-1, 1) * 1e-9) for _ in range(2 * dim)]
+    if style == "mixed":            # amplitudes of order 1 next to amplitudes of order 1e-9
+        return [float2bits(rng.uniform(-1, 1) * (1e-9 if rng.random() < 0.5 else 1.0)) for _ in range(2 * dim)]
     if style == "spike":            # one nonzero amplitude, generic phase
         k = rng.randrange(dim)
         v = [0.0] * (2 * dim)
